@@ -259,7 +259,12 @@ def _memory(case, work):
                     nontrivial = True
                     classes.append('strict-prefix')
                 if not store.frozen and k < M:
-                    return Outcome(fail('harness', f'store did not freeze (k={k}, M={M}, mutations={store.mutations})'), classes)
+                    # the number of mutations depends on the schedule (two workers may upload the same chunk twice):
+                    # this run simply completed before reaching k
+                    classes.append('completed-before-k')
+                    if exc is not None:
+                        return Outcome(fail('spurious-error', f'{cmd["op"]} raised {type(exc).__name__}: {exc} although nothing was '
+                                            f'interrupted (k={k} > {store.mutations} mutations)'), classes, nontrivial)
                 f = _judge(case, store.snapshot_objects(), users, expectation(), new_model, work, n, f'k{k}', cfg, sim)
                 if f is not None:
                     f['k'], f['M'] = k, M
